@@ -304,6 +304,10 @@ GEO_TWEAKS = [
     ('Units:Produced Temperature', ['degF']),
     ('Units:Pumping Power', ['kW']),
     # ... for quantities that are columns of the revenue & cash-flow table
+    # a heat price that falls over the project life (legal; takes a warning path of its own) - on the heat templates
+    ('Starting Heat Sale Price', ['0.05\nEnding Heat Sale Price, 0.03', '0.04\nEnding Heat Sale Price, 0.025\nEnd-Use Option, 2']),
+    # whole numbers with seven and more significant digits (printed with all-zero decimals)
+    ('Fracture Shape', ['1\nFracture Area, 2345678', '4\nFracture Height, 1111\nFracture Width, 1111', '1\nFracture Area, 1234321\nReservoir Model, 1']),
     ('Units:Total O&M Cost', ['KUSD/yr']),
     ('Units:Annual Revenue from Electricity Production', ['KUSD/yr']),
     ('Units:Electricity Sale Price Model', ['USD/kWh']),
